@@ -329,6 +329,8 @@ func (x *c11World) apply(op string) bool {
 			if r == nil || r.Err == 0 {
 				x.fail("mkdir/existing-name-not-refused", fmt.Sprintf("%s: %v", op, r))
 			}
+		} else if b := filepath.Base(dst); (strings.HasSuffix(b, ".incomplete") || strings.HasPrefix(b, ".info_") || strings.HasPrefix(b, ".rsrc_")) && r != nil && r.Err != 0 {
+			// a name the server uses for fork side files and partial uploads: refusing it (nothing changes) is fine
 		} else {
 			if r == nil || r.Err != 0 {
 				x.fail("mkdir/request-failed", fmt.Sprintf("%s: %v", op, r))
